@@ -121,6 +121,8 @@ PERS_ENDINGS = [
     ('p-return', dict(target='p_work', targs=[0, '$DIR'], inputs=[[1], [2], [3]]), ('value', '3'), False),
     ('p-noinput', dict(target='p_work', targs=[0, '$DIR'], inputs=[]), ('value', '0'), False),
     ('p-raise-2nd', dict(target='p_work', targs=[0, '$DIR'], inputs=[[1], [2, '$DIR', 4, True], [3]]), ('error', 'CustomError'), False),
+    ('p-raise-unrebuildable', dict(target='p_work', targs=[0, '$DIR'], inputs=[[1], [2, '$DIR', 4, 'twoarg'], [3]]), ('error', 'TwoArgError'), True),
+    ('p-raise-unrebuildable-1st', dict(target='p_work', targs=[0, '$DIR'], inputs=[[1, '$DIR', 4, 'twoarg']]), ('error', 'TwoArgError'), True),
 ]
 
 
